@@ -20,6 +20,7 @@ func init() {
 }
 
 func c04(c *Ctx) {
+	c.pageLoopsComplete("complete", "CommitJournal", "CommitWAL", "ApplyLTXNoLock", "rollbackJournalSegment")
 	p := c.P
 	call := func(n string) IM { return p.PlainCalls("litefs.(*DB)." + n) }
 
